@@ -529,16 +529,21 @@ pub fn interrupts() -> BoxedStrategy<Vec<u16>> {
 
 /// chunking + interrupts, no fault
 pub fn script() -> BoxedStrategy<Script> {
-    (chunks(), interrupts()).prop_map(|(chunks, interrupts)| Script { chunks, interrupts, fault: None, sticky: false }).boxed()
+    (chunks(), interrupts()).prop_map(|(chunks, interrupts)| Script { chunks, interrupts, fault: None, sticky: false, payload: 0 }).boxed()
 }
 
 pub fn ek() -> BoxedStrategy<EK> {
     prop::sample::select(&ALL_EK[..]).boxed()
 }
 
+/// what an injected io::Error carries (see `Script::payload`)
+pub fn payload() -> BoxedStrategy<u8> {
+    prop_oneof![4 => Just(0u8), 1 => 1u8..5].boxed()
+}
+
 pub fn script_with_fault(max_call: u32) -> BoxedStrategy<Script> {
-    (chunks(), interrupts(), prop::option::weighted(0.7, (0..max_call, ek())), prop::bool::weighted(0.3))
-        .prop_map(|(chunks, interrupts, fault, sticky)| Script { chunks, interrupts, fault, sticky })
+    (chunks(), interrupts(), prop::option::weighted(0.7, (0..max_call, ek())), prop::bool::weighted(0.3), payload())
+        .prop_map(|(chunks, interrupts, fault, sticky, payload)| Script { chunks, interrupts, fault, sticky, payload })
         .boxed()
 }
 
@@ -681,8 +686,8 @@ pub fn magic_prefixed(doc: BoxedStrategy<B>) -> BoxedStrategy<B> {
 
 pub fn big_input(format: Format) -> BoxedStrategy<B> {
     let rec = (prop_oneof![8 => 1usize..12, 1 => 240usize..270], prop_oneof![3 => 0usize..80, 2 => 80usize..400, 1 => 400usize..3000], any::<u8>());
-    (prop_oneof![4 => vec(rec.clone(), 20..200), 1 => vec((1usize..4, 0usize..12, any::<u8>()), 250..700)], endings(), any::<bool>(), prop_oneof![1 => Just(60usize), 1 => Just(70usize), 1 => 1usize..200], prop::option::weighted(0.3, any::<u16>()), prop::option::weighted(0.3, (any::<u16>(), 0u8..6)))
-        .prop_map(move |(recs, e, final_term, width, truncate, point)| {
+    (prop_oneof![4 => vec(rec.clone(), 20..200), 1 => vec((1usize..4, 0usize..12, any::<u8>()), 250..700)], endings(), any::<bool>(), prop_oneof![1 => Just(60usize), 1 => Just(70usize), 1 => 1usize..200], prop::option::weighted(0.3, any::<u16>()), prop::option::weighted(0.3, (any::<u16>(), 0u8..6)), prop::option::weighted(0.12, (66_000usize..200_000, 0u8..4, 0u8..4)))
+        .prop_map(move |(recs, e, final_term, width, truncate, point, tail)| {
             let mut out = render_big(format, &recs, e, final_term, width);
             // one point defect somewhere in the document (most bytes belong to long records)
             if let Some((p, kind)) = point {
@@ -704,7 +709,92 @@ pub fn big_input(format: Format) -> BoxedStrategy<B> {
                 let k = idx(t, out.len() + 1);
                 out.truncate(k);
             }
+            if let Some((len, kind, breaks)) = tail {
+                out.extend_from_slice(&garbage_tail(len, kind, breaks));
+            }
             B(out)
+        })
+        .boxed()
+}
+
+/// A tail of more than 64 KiB that is not a record: zero padding, a repeated byte or text, with 0..3 line breaks in
+/// it (never starting with a record start byte).
+pub fn garbage_tail(len: usize, kind: u8, breaks: u8) -> Vec<u8> {
+    let mut v: Vec<u8> = match kind % 4 {
+        0 => vec![0u8; len],
+        1 => vec![b'x'; len],
+        2 => b"lorem ipsum ".iter().cycle().take(len).cloned().collect(),
+        _ => (0..len).map(|i| b"ACGT\x00\xff;"[i % 7]).collect(),
+    };
+    for b in 0..breaks as usize {
+        let p = (len / 5) * (b + 1) + b * 17;
+        if p + 1 < len {
+            v[p] = b'\n';
+            // (the byte after a line break must not look like a record start)
+            if v[p + 1] == b'@' || v[p + 1] == b'>' {
+                v[p + 1] = b'x';
+            }
+        }
+    }
+    v
+}
+
+/// A few valid FASTQ records followed by a garbage tail (see `garbage_tail`): the input is truncated / invalid, and
+/// which of the two is reported must not depend on how much of the tail fits the buffer.
+pub fn fastq_garbage_tail_doc() -> BoxedStrategy<B> {
+    (fastq_valid_doc(4), 66_000usize..300_000, 0u8..4, 0u8..4)
+        .prop_map(|(d, len, kind, breaks)| {
+            let mut v = d.0;
+            if v.last().map_or(false, |b| *b != b'\n') {
+                v.push(b'\n');
+            }
+            v.extend_from_slice(&garbage_tail(len, kind, breaks));
+            B(v)
+        })
+        .boxed()
+}
+
+/// A defective FASTQ record whose id is thousands of bytes long (after 0..3 valid records).
+pub fn fastq_long_id_defective() -> BoxedStrategy<B> {
+    let id_len = prop_oneof![3 => 1000usize..1100, 2 => 4000usize..4200, 1 => 65_530usize..65_545, 1 => 70_000usize..70_010];
+    (fastq_valid_doc(3), id_len, any::<bool>(), 0u8..4, any::<bool>())
+        .prop_map(|(d, id_len, with_desc, defect, crlf)| {
+            let mut v = d.0;
+            if v.last().map_or(false, |b| *b != b'\n') {
+                v.push(b'\n');
+            }
+            let t: &[u8] = if crlf { b"\r\n" } else { b"\n" };
+            v.push(b'@');
+            v.extend((0..id_len).map(|i| b"identifier_"[i % 11]));
+            if with_desc {
+                v.extend_from_slice(b" some description");
+            }
+            v.extend_from_slice(t);
+            v.extend_from_slice(b"ACGTACGT");
+            v.extend_from_slice(t);
+            match defect {
+                0 => {
+                    // unequal lengths
+                    v.extend_from_slice(b"+");
+                    v.extend_from_slice(t);
+                    v.extend_from_slice(b"IIII");
+                    v.extend_from_slice(t);
+                }
+                1 => {
+                    // wrong separator
+                    v.extend_from_slice(b"-");
+                    v.extend_from_slice(t);
+                    v.extend_from_slice(b"IIIIIIII");
+                    v.extend_from_slice(t);
+                }
+                2 => {
+                    // truncated after the separator line
+                    v.extend_from_slice(b"+");
+                    v.extend_from_slice(t);
+                }
+                _ => {} // truncated after the sequence line
+            }
+            B(v)
         })
         .boxed()
 }
